@@ -195,7 +195,12 @@ def r_part(p, chain_ok=True):
         _, sym, suf, ann, st = p
         return head(sym, suf) + ann + '{' + r_stmt(st, chain_ok) + '}'
     if k == 'ncombo':
-        return p[1] + '{' + r_ntree(p[2], chain_ok)[1:-1] + '}'
+        # optional unannotated text between the opening brace and the first member: ('ncombo', sym, tree, text)
+        lead = (p[3] + ' ') if len(p) > 3 and p[3] else ''
+        return p[1] + '{' + lead + r_ntree(p[2], chain_ok)[1:-1] + '}'
+    if k == 'nsib':
+        # sibling nested statements of one type joined by one written operator, without enclosing braces
+        return (' [%s] ' % p[2]).join(p[1] + '{' + r_stmt(st, chain_ok) + '}' for st in p[3])
     if k == 'pairs':
         return r_ptree(p[1], chain_ok)
     if k == 'fill':
@@ -254,6 +259,8 @@ def nest_depth(parts):
             d = max(d, 1 + nest_depth(p[4]))
         elif p[0] == 'ncombo':
             d = max(d, 1 + nt_depth(p[2]))
+        elif p[0] == 'nsib':
+            d = max(d, 1 + max(nest_depth(st) for st in p[3]))
         elif p[0] == 'pairs':
             d = max(d, pt_depth(p[1]))
     return d
@@ -555,6 +562,12 @@ def d_fields(parts):
     for p in parts:
         if p[0] == 'ncombo':
             add(SYM_FIELD_C[p[1]], d_ntree(p[2], p[1]), p[1], 'AND')
+        elif p[0] == 'nsib':
+            ns = [d_nested(('nested', p[1], '', '', st)) for st in p[3]]
+            acc = ns[0]
+            for x in ns[1:]:
+                acc = ('C', _b(p[1]), None, None, [], [], p[2], acc, x)
+            add(SYM_FIELD_C[p[1]], acc, p[1], 'AND')
     for p in parts:
         if p[0] == 'nested':
             add(SYM_FIELD_C[p[1]], d_nested(p), p[1], 'AND')
